@@ -4,7 +4,7 @@
    rfc_decode / rfc_repr / rfc_int / rfc_string / rfc_huff_decode are the RFC 7541 reference (specification). *)
 From Coq Require Import List ZArith Bool.
 From Bfe Require Import lib.Val lib.Bytes gen.HpackTables model.Huffman model.Hpack run.RunC31
-  proofs.HuffmanProofs proofs.HuffmanTrieProofs proofs.HuffmanEquivProofs proofs.HpackProofs proofs.HpackRfcProofs proofs.HpackIncrProofs proofs.HpackC31Proofs.
+  proofs.HuffmanProofs proofs.HuffmanTrieProofs proofs.HuffmanEquivProofs proofs.HpackProofs proofs.HpackRfcProofs proofs.HpackIncrProofs proofs.HpackLimProofs proofs.HpackEmitProofs proofs.HpackC31Proofs.
 Import ListNotations.
 Open Scope Z_scope.
 
@@ -45,10 +45,21 @@ Theorem C31_decoder_refines_rfc : forall mx chunks, 0 <= mx -> forallb wf_bytes 
 Proof. exact decoder_refines_rfc. Qed.
 Print Assumptions C31_decoder_refines_rfc.
 
+(* SetEmitEnabled: TABLE EVOLUTION IS INDEPENDENT OF THE EMIT FLAG.  For every Huffman decoder, string limit M >= 0,
+   decoder state d, emit budget b (SetEmitEnabled(false) after b emitted fields; negative = never) and chunk list:
+   whenever the block is accepted with emit always enabled, it is accepted with budget b, the final decoder state
+   (dynamic table entries and sizes, saved bytes, firstField) is identical, and exactly the first b fields are emitted. *)
+Theorem C31_emit_independent : forall hd M, 0 <= M -> forall d b chunks dd fs,
+  dec_run_lim hd M d chunks [] = (dd, fs, 0) -> dec_run_e hd M d b chunks [] = (dd, take_b b fs, 0).
+Proof. exact emit_independent. Qed.
+Print Assumptions C31_emit_independent.
+
 (* CENTRAL THEOREM: on every well-formed wire input the model's output satisfies the executable property that the
    harness evaluates on the implementation's observation (no finding class: kf_C31 = 0 everywhere).
-   wf_C31: table size >= 0, bytes in range, default string-length limit (SetMaxStringLength not called; inputs with
-   a limit are generated and checked against the model and the property but are outside this theorem).
+   wf_C31: table size >= 0, bytes in range, default string-length limit (SetMaxStringLength not called), any emit
+   budget k if the reference accepts the input, k < 0 (emit never disabled) otherwise; the remaining generated inputs
+   (string limit set; emit disabled on an input the reference rejects) are checked against model and property but are
+   outside this theorem.
    run_C31 uses the bit-level Huffman decoder; agree_C31 additionally requires the byte-trie transcription
    (huff_decode) to give the same observation - see C31_trie_step_agrees and level_note. *)
 Theorem C31_central : forall i, wf_C31 i = true -> kf_C31 i = 0 -> prop_C31 i (run_C31 i) = true.
@@ -56,8 +67,7 @@ Proof. exact C31_central_lemma. Qed.
 Print Assumptions C31_central.
 Example C31_central_nonvacuous :
   wf_C31 ex_input31 = true /\ agree_C31 ex_input31 (run_C31 ex_input31) = true
-  /\ run_C31 ex_input31 = VL [VL [VL [VB [58;109;101;116;104;111;100]; VB [71;69;84]; VZ 0]; VL [VB [120]; VB [48]; VZ 0];
-                                   VL [VB [120]; VB [48]; VZ 0]]; VZ 0; VZ 34; VZ 64; VZ 1].
+  /\ run_C31 ex_input31 = VL [VL [VL [VB [58;109;101;116;104;111;100]; VB [71;69;84]; VZ 0]; VL [VB [120]; VB [48]; VZ 0]]; VZ 0; VZ 34; VZ 64; VZ 1].
 Proof. exact ex_input31_ok. Qed.
 
 (* The byte-trie Huffman decoder (transcription of addDecoderNode + the fixed huffmanDecode with cur/cbits/sbits)
@@ -75,7 +85,8 @@ Theorem C31_decoder_refines_rfc_trie : forall mx chunks, 0 <= mx -> forallb wf_b
   end.
 Proof. exact decoder_refines_rfc_trie. Qed.
 Print Assumptions C31_decoder_refines_rfc_trie.
-Theorem C31_run_trie_eq : forall i, wf_C31 i = true -> run_C31_trie i = run_C31 i.
+Theorem C31_run_trie_eq : forall i, wf_C31 i = true ->
+  match decode_input i with Some (_, _, k, _) => k < 0 | None => True end -> run_C31_trie i = run_C31 i.
 Proof. exact run_C31_trie_eq. Qed.
 Print Assumptions C31_run_trie_eq.
 
@@ -89,7 +100,7 @@ Print Assumptions C31_trie_step_agrees.
    error in the trie model and in the reference; a valid block (":method: GET", then a literal with incremental
    indexing using a Huffman value with 3 bits of padding) is accepted with two fields. *)
 Example C31_witness_rejected :
-  run_C31_trie (VL [VZ 4096; VZ 0; VL [VB [0;0;133;0;127;255;255;255]]]) = VL [VL []; VZ 4; VZ 0; VZ 4096; VZ 0]
+  run_C31_trie (VL [VZ 4096; VZ 0; VZ (-1); VL [VB [0;0;133;0;127;255;255;255]]]) = VL [VL []; VZ 4; VZ 0; VZ 4096; VZ 0]
   /\ rfc_decode 4096 [0;0;133;0;127;255;255;255] = None.
 Proof. exact (conj eq_refl eq_refl). Qed.
 Example C31_valid_accepted :
